@@ -22,6 +22,7 @@ import (
 
 	"github.com/olive-io/bpmn/schema"
 	"github.com/olive-io/bpmn/v2/pkg/data"
+	"github.com/olive-io/bpmn/v2/pkg/verifhook"
 )
 
 type nextTaskActionMessage struct {
@@ -92,6 +93,7 @@ func (task *genericTask) run(ctx context.Context) {
 						Build()
 
 					task.tracer.Send(at)
+					verifhook.Point("task.sent")
 					select {
 					case <-ctx.Done():
 						task.tracer.Send(CancellationFlowNodeTrace{Node: task.element})
